@@ -1636,7 +1636,7 @@ private:
       void SetBuffer(const char * srcBytes, uint32 srcStrlen)
       {
          memcpy(_smallBuffer, srcBytes, srcStrlen);
-         _smallBuffer[srcStrlen] = '\0';  // make sure we're NUL terminated (could be an issue if we're shrinking)
+         if (srcStrlen < sizeof(_smallBuffer)) _smallBuffer[srcStrlen] = '\0';  // make sure we're NUL terminated (could be an issue if we're shrinking); at full length SetLength() below provides the NUL
          SetLength(srcStrlen);
       }
 
